@@ -3,6 +3,7 @@ CONSTANTS
   Reqs <- Reqs2
   Parts <- P13
   RegAfter <- RegBeforeFlush
+  KeyOf <- IdKey
   Dups = {}
   LookupAtomic = TRUE
   FailIdx = {}
